@@ -404,4 +404,17 @@ def dupR : Path := { cls := "C".toList, ns := none, host := none,
 theorem C10_path_eq_is_normal_form_fails_without_nocasedict :
     ¬ (pyPathEq dupL dupR = true ↔ normPath dupL = normPath dupR) := by decide
 
+/-! ### configuration the model is written for (regenerated from the source text on every run) -/
+
+/-- The model strips qualifiers and class origins from returned instances unconditionally and never filters by
+    LocalOnly: that is the code's behaviour exactly as long as these constants of pywbem_mock have these values
+    (`Generated/Store.lean` is re-extracted from `pywbem_mock/config.py` and `_mainprovider.py` on every run; a
+    changed value breaks this theorem instead of silently invalidating the model).  The status codes are the
+    DSP0200 numbers. -/
+theorem C10_model_config_pinned :
+    ignoreInstanceIqParam = true ∧ ignoreInstanceIcoParam = true ∧ instanceRetrieveLocalOnly = false ∧
+    defaultDeepInheritance = true ∧
+    cimErrInvalidNamespace = 3 ∧ cimErrInvalidParameter = 4 ∧ cimErrInvalidClass = 5 ∧ cimErrNotFound = 6 ∧
+    cimErrAlreadyExists = 11 := by decide
+
 end C10
